@@ -1,7 +1,8 @@
 from pyvc.verify import (contract, Contract, Exc, INT_, BOOL_, STR_, BYTES_, JSON_, NONE_, LIST, CONST, OBJ, ONEOF,
-                         REPO, OPAQUE, RAW, TUPLE, ENUM, OBJSEQ, PYLIST, PYDICT, JSONOV, native, RecSpec)
+                         REPO, OPAQUE, RAW, TUPLE, ENUM, OBJSEQ, PYLIST, PYDICT, JSONOV, native, RecSpec, only)
 from spec.device import *     # noqa: ghost schema, classify, ghost_step ...
 import spec.btc               # noqa: A-BTC externals
+import spec.fs                # noqa: A-FS externals
 
 DONGLE = OBJ("ledger.hsm2dongle:HSM2Dongle", logger=OPAQUE("logger"), debug=BOOL_,
              last_comm_exception=NONE_, dongle=OPAQUE("dongle", opened=BOOL_))
